@@ -22,6 +22,8 @@ type procM struct {
 	ID      string `json:"id"` // short id
 	Gen     int    `json:"gen"`
 	Workers int    `json:"workers"`
+	// Plugin: "" = lab.PluginProc; anything else is a plugin name that cannot be dispensed
+	Plugin string `json:"plugin,omitempty"`
 }
 
 type connM struct {
@@ -61,7 +63,11 @@ func procsToConfig(ps []procM) []config.Processor {
 	}
 	out := make([]config.Processor, len(ps))
 	for i, p := range ps {
-		out[i] = config.Processor{ID: p.ID, Plugin: lab.PluginProc, Workers: p.Workers,
+		plug := lab.PluginProc
+		if p.Plugin != "" {
+			plug = p.Plugin
+		}
+		out[i] = config.Processor{ID: p.ID, Plugin: plug, Workers: p.Workers,
 			Settings: map[string]string{"gen": strconv.Itoa(p.Gen)}}
 	}
 	return out
